@@ -7,6 +7,8 @@
  *   mkdir <path> <octal mode>        mkfile <path> <octal mode>       fifo <path>
  *   dgram <path> <fill 0|1>          bound, never read datagram socket; fill=1: queue filled until EAGAIN
  *   devlog <path> <fill 0|1>         same, and connect("/dev/log") is redirected to it (by librecorder)
+ *   stream <path> / devlog-stream <path>   listening STREAM socket with a full accept backlog that nobody accepts from
+ *   parentname <fmt>                 fork: the script continues in the child, the parent renames itself (fmt may hold %d = its pid) and waits
  *   stdfd <1|2> <pipe-noreader|pipe-full|null|file:<path>>      what the CALLER's descriptor is
  *   stdin <null|closed|pty>
  *   uid <n>                          drop to uid/gid n (mode-000 sinks are only effective for non-root)
@@ -29,10 +31,12 @@
 #include <string.h>
 #include <time.h>
 #include <unistd.h>
+#include <sys/prctl.h>
 #include <sys/socket.h>
 #include <sys/stat.h>
 #include <sys/syscall.h>
 #include <sys/un.h>
+#include <sys/wait.h>
 #include "common.h"
 #include "verif_shared.h"
 
@@ -102,6 +106,22 @@ static int bind_dgram(const char *path, int fill) {
     return fd;
 }
 
+/* a LISTENING stream socket nobody accepts from, its accept backlog filled (a blocking connect() to it sleeps; a datagram connect gets EPROTOTYPE) */
+static void bind_stream_full(const char *path) {
+    int fd = socket(AF_UNIX, SOCK_STREAM | SOCK_CLOEXEC, 0);
+    struct sockaddr_un a; memset(&a, 0, sizeof a); a.sun_family = AF_UNIX; strncpy(a.sun_path, path, sizeof a.sun_path - 1);
+    unlink(path);
+    if (bind(fd, (struct sockaddr *)&a, sizeof a) < 0 || listen(fd, 0) < 0) { perror("bind-stream"); exit(3); }
+    fcntl(fd, F_DUPFD_CLOEXEC, 180); close(fd);
+    long n = 0;
+    for (; n < 64; n++) {
+        int c = socket(AF_UNIX, SOCK_STREAM | SOCK_CLOEXEC | SOCK_NONBLOCK, 0);
+        if (connect(c, (struct sockaddr *)&a, sizeof a) < 0) { close(c); break; }
+        fcntl(c, F_DUPFD_CLOEXEC, 300); close(c);      /* keep the queued connection alive */
+    }
+    recf("note\tstream-backlog-filled\t%ld\t%d\n", n, errno);
+}
+
 static void set_stdfd(int tfd, const char *what) {
     if (!strcmp(what, "null")) { int fd = open("/dev/null", O_WRONLY); dup2(fd, tfd); close(fd); }
     else if (!strcmp(what, "pipe-noreader")) { int p[2]; if (pipe(p)) exit(3); close(p[0]); dup2(p[1], tfd); close(p[1]); }
@@ -154,6 +174,17 @@ static void handle_line(int nf, char **f) {
     } else if (!strcmp(f[0], "fifo") && nf >= 2) { char *p = subst(f[1], strlen(f[1]), NULL); unlink(p); mkfifo(p, 0666);
     } else if (!strcmp(f[0], "dgram") && nf >= 3) { char *p = subst(f[1], strlen(f[1]), NULL); bind_dgram(p, atoi(f[2]));
     } else if (!strcmp(f[0], "devlog") && nf >= 3) { char *p = subst(f[1], strlen(f[1]), NULL); bind_dgram(p, atoi(f[2])); strncpy(verif_expect.devlog_redirect, p, sizeof verif_expect.devlog_redirect - 1);
+    } else if (!strcmp(f[0], "stream") && nf >= 2) { char *p = subst(f[1], strlen(f[1]), NULL); bind_stream_full(p);
+    } else if (!strcmp(f[0], "devlog-stream") && nf >= 2) { char *p = subst(f[1], strlen(f[1]), NULL); bind_stream_full(p); strncpy(verif_expect.devlog_redirect, p, sizeof verif_expect.devlog_redirect - 1);
+    } else if (!strcmp(f[0], "parentname") && nf >= 2) {
+        /* the rest of the script runs in a child whose PARENT is renamed (prctl PR_SET_NAME, "%d" = the parent's own pid): ancestors with odd names */
+        fflush(NULL);
+        pid_t c = fork();
+        if (c > 0) {
+            char nm[64]; snprintf(nm, sizeof nm, f[1], (int) getpid()); prctl(PR_SET_NAME, nm, 0, 0, 0);
+            int st = 0; while (waitpid(c, &st, 0) < 0 && errno == EINTR) {}
+            _exit(WIFEXITED(st) ? WEXITSTATUS(st) : 128 + WTERMSIG(st));
+        }
     } else if (!strcmp(f[0], "devlog-absent") && nf >= 2) { char *p = subst(f[1], strlen(f[1]), NULL); strncpy(verif_expect.devlog_redirect, p, sizeof verif_expect.devlog_redirect - 1);
     } else if (!strcmp(f[0], "stdfd") && nf >= 3) { set_stdfd(atoi(f[1]), f[2]);
     } else if (!strcmp(f[0], "stdin") && nf >= 2) {
